@@ -20,16 +20,31 @@ import (
 	"strconv"
 	"strings"
 	"sync"
+	"sync/atomic"
 	"testing"
 
 	"github.com/gethiox/HIDI/internal/pkg/logger"
 	"pgregory.net/rapid"
 )
 
+// logTap, when set, sees every log record of the code under test (JSON bytes) before it is dropped.
+var logTap atomic.Value // func([]byte)
+
+// SetLogTap installs (or with nil removes) a function that is called for every log record of the code under test.
+func SetLogTap(f func([]byte)) {
+	if f == nil {
+		f = func([]byte) {}
+	}
+	logTap.Store(f)
+}
+
 func init() {
 	// logger.Messages has capacity 128 and every log call blocks when it is full.
 	go func() {
-		for range logger.Messages {
+		for m := range logger.Messages {
+			if f, ok := logTap.Load().(func([]byte)); ok && f != nil {
+				f(m)
+			}
 		}
 	}()
 }
